@@ -88,6 +88,44 @@ Theorem xml_commodities_well_formed : forall cs,
 Proof. exact xml_commodities_structure. Qed.
 Print Assumptions xml_commodities_well_formed.
 
+(* ---- payee overrides (Payee tags) ---- *)
+(* the csv payee cell is post_t::payee() by csv_default_row_fields below.  The xml output lets a
+   reader recover the posting <payee> child if present, else the transaction <payee>: that is the
+   register payee whenever the posting has no tags on later lines, or no payee was fixed when
+   its line was read *)
+Theorem xml_payee_faithful_partial : forall x p,
+  p_meta_later p = [] \/ payee_at_parse x p = [] -> xml_payee x p = post_payee x p.
+Proof.
+  intros x p [H|H]; [apply xml_payee_no_later_tags|apply xml_payee_no_parse_time_payee]; exact H.
+Qed.
+Print Assumptions xml_payee_faithful_partial.
+
+(* witness transaction: header payee H, transaction tag Payee: X, one posting whose NEXT line says
+   Payee: Y *)
+Definition pw_entry (v : str) : mentry := (true, k_Payee, Some v).
+Definition pw_post : post :=
+  mkPost 3 0 0 [65] (mkAmt [36; 49] [80] (Some [36]) [49]) None None [] [pw_entry [89]].
+Definition pw_xact : xact := mkXact 1 2020 1 2 0 None [72] None [pw_entry [88]] [pw_post].
+
+(* FALSE in general (finding F116): textual.cc stores the payee when the posting LINE is read (the
+   inherited X), a Payee tag on the following line changes payee_from_tag() (Y, what xml shows) but
+   not post_t::payee() (X, what register and csv show) *)
+Theorem xml_payee_refuted : exists x p, In p (x_posts x) /\ xml_payee x p <> post_payee x p.
+Proof. exists pw_xact, pw_post. split; [left; reflexivity|]. vm_compute. discriminate. Qed.
+Print Assumptions xml_payee_refuted.
+
+(* emacs prints one payee per transaction, the header's (emacs_tokens_faithful): it is the
+   register payee of a posting only when no Payee tag applies ... *)
+Theorem emacs_payee_faithful_partial : forall x p,
+  payee_at_parse x p = [] -> payee_from_tag x p = [] -> post_payee x p = x_payee x.
+Proof. exact header_payee_without_tags. Qed.
+Print Assumptions emacs_payee_faithful_partial.
+
+(* ... and not otherwise (finding F115) *)
+Theorem emacs_payee_refuted : exists x p, In p (x_posts x) /\ post_payee x p <> x_payee x.
+Proof. exists pw_xact, pw_post. split; [left; reflexivity|]. vm_compute. discriminate. Qed.
+Print Assumptions emacs_payee_refuted.
+
 (* ---- csv written with quoted_rfc ---- *)
 Theorem csv_rfc_roundtrip : forall rows,
   Forall (fun row => row <> [] /\ Forall (fun c => fst c = QRfc) row) rows ->
@@ -106,11 +144,12 @@ Proof. exact csv_out_rfc_format. Qed.
 Print Assumptions csv_rfc_format_roundtrip.
 
 (* ---- the DEFAULT csv format (Gen/CsvFormat.v, regenerated from report.h) ---- *)
-(* its cells are date, code, payee, display account, commodity, quantity, state mark and the
+(* its cells are date, code, the posting's payee (post_t::payee(): a Payee tag overrides the
+   transaction's), display account, commodity, quantity, state mark and the
    joined note, each wrapped by quoted() *)
 Theorem csv_default_row_fields : forall x p,
   map snd (csv_cells src_csv_format x p) =
-  [fmt_date (x_year x) (x_month x) (x_day x); opt_str (x_code x); x_payee x; display_account p;
+  [fmt_date (x_year x) (x_month x) (x_day x); opt_str (x_code x); post_payee x p; display_account p;
    opt_str (a_sym (p_amount p)); a_qty (p_amount p); state_mark (eff_state x p);
    join_lines (post_note x p)].
 Proof. intros x p. reflexivity. Qed.
@@ -154,8 +193,8 @@ Print Assumptions csv_default_roundtrip_rfc_partial.
 
 (* the hypothesis is satisfiable, and both readers then agree *)
 Definition wit_amt : amt := mkAmt [36; 49] [80] (Some [36]) [49].
-Definition wit_post : post := mkPost 2 0 0 [65; 58; 66] wit_amt None (Some [32; 110]).
-Definition wit_xact (payee : str) : xact := mkXact 1 2020 1 2 1 (Some [99]) payee None [wit_post].
+Definition wit_post : post := mkPost 2 0 0 [65; 58; 66] wit_amt None (Some [32; 110]) [] [].
+Definition wit_xact (payee : str) : xact := mkXact 1 2020 1 2 1 (Some [99]) payee None [] [wit_post].
 
 Example csv_default_clean_report :
   csv_read_rfc (csv_out src_csv_format [wit_xact [80; 44; 59; 60]])
